@@ -918,6 +918,31 @@ func (w *c06W) genZipLevel(idx *int64, seeds []c06Seed) {
 	for i, o := range others {
 		w.rawCase(idx, "zip", o.what, i, i, o.f)
 	}
+	// one extra entry per archive, its name built from the name prefixes a package reader dispatches on and
+	// suffixes that do not have the usual <digits>.<extension> form
+	k := 0
+	for _, pre := range []string{"word/media/image", "word/media/", "word/header", "word/footer", "word/", "word/document", "word/styles", "word/numbering",
+		"word/footnotes", "word/theme/", "word/_rels/", "_rels/", "docProps/", "customXml/", ""} {
+		for _, suf := range []string{"", "1", ".", "1.", ".png", "1.PNG", "-1.png", "007.jpeg", "1.xml", ".xml.rels", "/", "1/", "x", "1.png.bak", "%31.png", " 1.png"} {
+			for _, upper := range []bool{false, true} {
+				name := pre + suf
+				if upper {
+					name = strings.ToUpper(name)
+					if name == pre+suf {
+						continue
+					}
+				}
+				if name == "" {
+					continue
+				}
+				entry := name
+				w.rawCase(idx, "zip", fmt.Sprintf("one extra entry named %q", entry), k, len(entry), func() []byte {
+					return c06StoreZip(append(append([]foreign.Part{}, small...), foreign.Part{Name: entry, Data: []byte("x")}))
+				})
+				k++
+			}
+		}
+	}
 }
 
 // ---------------------------------------------------------------------------
